@@ -10,8 +10,12 @@ tie:            every machine emitted by a real front-end in this run is dumped 
                 generator (incl. sources with an unfit operand, which must be REJECTED; plus sources outside
                 the C05 model: ROM+RAM code in hy/vn mode, ROM/RAM data sections around 2^k cells), basm on
                 every *.basm under the repository (standalone; the reason is listed when it does
-                not assemble), neuralbond -> basm and bmqsim -> basm on small inputs.  The exact
-                structural agreement of the model assembler with the real one is C05's tie.
+                not assemble), neuralbond -> basm (register sizes 32, 64) and bmqsim -> basm on small
+                inputs, the machines saved by the real bondgo CLI in its multi-processor modes (-mpm,
+                -multi-abstract-assembly-input; standard and non-standard register sizes) and by
+                bmbuilder.  Where the harness has the source text, the machine's external port counts
+                and bonds are also compared with the source's cpdef / ioatt lines (Basm.wiringAgrees).
+                The exact structural agreement of the model assembler with the real one is C05's tie.
 """
 import json
 import os
@@ -96,6 +100,9 @@ def source_of(inst):
     w = inst["what"]
     if w.startswith("S "):
         return w[2:].replace("\\n", "\n") + "\n"
+    if inst["kind"].startswith("bondgo:") and w.split()[0] in BONDGO_PROGS:
+        opts = " ".join("-" + o for o in inst["kind"].split(":", 1)[1].split("+"))
+        return "// bondgo %s -input-file %s -register-size %s -save-bondmachine bm.json\n" % (opts, w.split()[0], w.split("=")[-1]) + BONDGO_PROGS[w.split()[0]]
     return None
 
 
@@ -103,26 +110,30 @@ def front_end_files(rep, thorough):
     """runs the real neuralbond / bmqsim CLIs, returns [(kind, [files])]"""
     d = vlib.scratch_dir("c16" + vlib._REPO_TAG)
     sets = []
+    later = []   # the non-default register sizes: after the default sets (the first two sets are also run with dyn+minws)
     notes = []
     lib = sorted(os.path.join(vlib.REPO, "library", "neurons", f) for f in os.listdir(os.path.join(vlib.REPO, "library", "neurons"))
                  if f.startswith("rom-") and f.endswith(".basm"))
     try:
         nb = vlib.go_build_repo("neuralbond")
         nets = ["net-testsmall.json"] + (["net-testnormal.json"] if thorough else [])
-        for net in nets:
-            for iom in (["async", "sync"] if thorough else ["async"]):
+        # (net, io mode, register size): the sizes the tool's -register-size option takes; with the float32 neurons of the
+        # library 16 bits are too few (basm must then REJECT the source: counted as rejected, not as a failure)
+        runs = [(net, iom, "32") for net in nets for iom in (["async", "sync"] if thorough else ["async"])]
+        runs += [("net-testsmall.json", "async", "64")] + ([("net-testsmall.json", "sync", "64"), ("net-testsmall.json", "async", "16")] if thorough else [])
+        for net, iom, rs in runs:
                 cfg = os.path.join(d, "nbcfg.json")
                 open(cfg, "w").write('{"Params":{"expprec":"4"}}')
-                outf = os.path.join(d, "nb-%s-%s.basm" % (net.replace(".json", ""), iom))
+                outf = os.path.join(d, "nb-%s-%s-%s.basm" % (net.replace(".json", ""), iom, rs))
                 if os.path.exists(outf):
                     os.remove(outf)
                 rc, so, se = vlib.run([nb, "-net-file", os.path.join(vlib.REPO, "cmd", "neuralbond", net), "-neuron-lib-path",
-                                       os.path.join(vlib.REPO, "library", "neurons"), "-save-basm", outf, "-register-size", "32",
+                                       os.path.join(vlib.REPO, "library", "neurons"), "-save-basm", outf, "-register-size", rs,
                                        "-io-mode", iom, "-config-file", cfg], timeout=120, cwd=d)
                 if rc == 0 and os.path.exists(outf):
-                    sets.append(("neuralbond:%s:%s" % (net, iom), [outf] + lib))
+                    (sets if rs == "32" else later).append(("neuralbond:%s:%s%s" % (net, iom, "" if rs == "32" else ":rs" + rs), [outf] + lib))
                 else:
-                    notes.append("neuralbond on %s failed: %s" % (net, (so + se)[-300:]))
+                    notes.append("neuralbond on %s (register size %s) failed: %s" % (net, rs, (so + se)[-300:]))
     except vlib.BuildError as e:
         notes.append("neuralbond CLI does not build: %s" % str(e)[-300:])
     try:
@@ -139,7 +150,157 @@ def front_end_files(rep, thorough):
                 notes.append("bmqsim flavor %s failed: %s" % (fl, (so + se)[-300:]))
     except vlib.BuildError as e:
         notes.append("bmqsim CLI does not build: %s" % str(e)[-300:])
-    return sets, notes
+    return sets + later, notes
+
+
+BONDGO_PROGS = {
+    "pipe2.go": """package main
+
+import (
+	"bondgo"
+)
+
+func worker(a chan uint8, b chan uint8) {
+	var v uint8
+	for {
+		v = <-a
+		v++
+		b <- v
+	}
+}
+
+func main() {
+	var p0 bondgo.Input
+	var q0 bondgo.Output
+	var x uint8
+	var a chan uint8
+	var b chan uint8
+	p0 = bondgo.Make(bondgo.Input, 3)
+	q0 = bondgo.Make(bondgo.Output, 5)
+	go worker(a, b)
+	for {
+		x = bondgo.IORead(p0)
+		a <- x
+		x = <-b
+		bondgo.IOWrite(q0, x)
+	}
+}
+""",
+    "pipe3.go": """package main
+
+import (
+	"bondgo"
+)
+
+func stage(in chan uint8, out chan uint8) {
+	var v uint8
+	for {
+		v = <-in
+		v = v + 3
+		out <- v
+	}
+}
+
+func main() {
+	var p0 bondgo.Input
+	var q0 bondgo.Output
+	var q1 bondgo.Output
+	var x uint8
+	var c1 chan uint8
+	var c2 chan uint8
+	var c3 chan uint8
+	p0 = bondgo.Make(bondgo.Input, 3)
+	q0 = bondgo.Make(bondgo.Output, 5)
+	q1 = bondgo.Make(bondgo.Output, 6)
+	go stage(c1, c2)
+	go stage(c2, c3)
+	for {
+		x = bondgo.IORead(p0)
+		c1 <- x
+		bondgo.IOWrite(q1, x)
+		x = <-c3
+		bondgo.IOWrite(q0, x)
+	}
+}
+""",
+}
+
+BMB_BASM = """%%meta bmdef global registersize:%d
+%%section code .romtext iomode:async
+	entry _start
+_start:
+	mov r0, i0
+	inc r0
+	mov o0, r0
+	j _start
+%%endsection
+%%meta cpdef cpu romcode:code
+%%meta ioatt in0 cp:bm, type:input, index:0
+%%meta ioatt in0 cp:cpu, type:input, index:0
+%%meta ioatt out0 cp:bm, type:output, index:0
+%%meta ioatt out0 cp:cpu, type:output, index:0
+"""
+
+
+def saved_machines(rep, thorough):
+    """front-ends that save a machine themselves (JSON): bondgo in its multi-processor modes and bmbuilder, with standard and
+    non-standard register sizes.  -> [(kind, what, json path)], notes"""
+    d = vlib.scratch_dir("c16" + vlib._REPO_TAG)
+    res = []
+    notes = []
+    try:
+        bg = vlib.go_build_repo("bondgo")
+        for name, text in BONDGO_PROGS.items():
+            open(os.path.join(d, name), "w").write(text)
+        runs = [("pipe2.go", ["-mpm"], 8), ("pipe2.go", ["-mpm"], 12), ("pipe3.go", ["-mpm"], 24)]
+        if thorough:
+            runs += [("pipe3.go", ["-mpm"], rs) for rs in (8, 16, 32, 64, 7, 12, 33)] + [("pipe2.go", ["-mpm"], rs) for rs in (16, 32, 64, 24)]
+            runs += [("pipe3.go", ["-mpm", "-cascading-io"], rs) for rs in (8, 12)]
+        for prog, opts, rs in runs:
+            outj = os.path.join(d, "bg-%s%s-%d.json" % (prog, "".join(opts), rs))
+            if os.path.exists(outj):
+                os.remove(outj)
+            rc, so, se = vlib.run([bg, "-input-file", prog] + opts + ["-register-size", str(rs), "-save-bondmachine", outj], timeout=90, cwd=d)
+            if rc == 0 and os.path.exists(outj):
+                res.append(("bondgo:" + "+".join(o.lstrip("-") for o in opts), "%s register-size=%d" % (prog, rs), outj))
+            else:
+                notes.append("bondgo %s on %s with register size %d saved no machine: rc=%s %s" % (" ".join(opts), prog, rs, rc, (so + se)[-200:]))
+        # the multi-abstract-assembly input: one assembly text per processor + the bonds
+        maa = os.path.join(d, "maa.json")
+        json.dump({"ProcProgs": ["clr r0\ni2r r0 i0\nr2o r0 o0", "clr r0\ni2r r0 i0\nr2o r0 o0\nr2o r0 o1"],
+                   "Bonds": ["i0,p0i0", "p0o0,p1i0", "p1o0,o0", "p1o1,o1"]}, open(maa, "w"))
+        for rs in ([16, 12] if not thorough else [8, 16, 32, 64, 12, 24]):
+            outj = os.path.join(d, "bg-maa-%d.json" % rs)
+            if os.path.exists(outj):
+                os.remove(outj)
+            rc, so, se = vlib.run([bg, "-multi-abstract-assembly-input", "-input-file", maa, "-register-size", str(rs), "-save-bondmachine", outj],
+                                  timeout=90, cwd=d)
+            if rc == 0 and os.path.exists(outj):
+                res.append(("bondgo:multi-abstract-assembly", "maa.json register-size=%d" % rs, outj))
+            else:
+                notes.append("bondgo -multi-abstract-assembly-input with register size %d saved no machine: rc=%s %s" % (rs, rc, (so + se)[-200:]))
+    except vlib.BuildError as e:
+        notes.append("bondgo CLI does not build: %s" % str(e)[-300:])
+    try:
+        bb = vlib.go_build_repo("bmbuilder")
+        for rs in ([12] if not thorough else [8, 12, 32]):
+            for nm in ("bba", "bbb"):
+                open(os.path.join(d, "%s%d.basm" % (nm, rs)), "w").write(BMB_BASM % rs)
+            bmb = os.path.join(d, "seq%d.bmb" % rs)
+            open(bmb, "w").write("%%meta bmdef global registersize:%d, main:main\n%%block main .sequential\n"
+                                 "\tl1: basmfiles:bba%d.basm, disabledynamicalmatching:1\n\tbasm\n"
+                                 "\tl2: basmfiles:bbb%d.basm, disabledynamicalmatching:1\n\tbasm\n%%endblock\n" % (rs, rs, rs))
+            outj = os.path.join(d, "bb-%d.json" % rs)
+            if os.path.exists(outj):
+                os.remove(outj)
+            rc, so, se = vlib.run([bb, "-save-bondmachine", outj, bmb], timeout=90, cwd=d)
+            if rc == 0 and os.path.exists(outj) and os.path.getsize(outj) > 10:
+                res.append(("bmbuilder:sequential", "two basm machines of register size %d in a sequential block" % rs, outj))
+            else:
+                notes.append("bmbuilder (register size %d) saved no machine: rc=%s %s" % (rs, rc, (so + se)[-200:]))
+    except vlib.BuildError as e:
+        notes.append("bmbuilder CLI does not build: %s" % str(e)[-300:])
+    return res, notes
 
 
 def run(rep):
@@ -175,6 +336,11 @@ def run(rep):
         for kind, files in sets[:2] if not thorough else sets:
             # the default (dynamic matching) configuration with the word-size chooser, in its own process
             _, model = run_pair(hbin, ["files", kind + ":dyn+minws", "dyn", "minws"] + files)
+            insts += instances(model)
+        saved, notes2 = saved_machines(rep, thorough)
+        notes += notes2
+        for kind, what, path in saved:
+            _, model = run_pair(hbin, ["json", kind, what, path])
             insts += instances(model)
     # ---- evidence ----
     by_fe = {}
@@ -224,8 +390,9 @@ def run(rep):
                                "library_result_classes": lib_skips},
         "unmodelled": ["library *.basm files are fragments / templated sections without %meta bmdef/cpdef: none assembles standalone "
                        "(listed under front_end_instances_checked with the tool's error class); they are exercised through neuralbond",
-                       "bondgo front-end: its output needs r2m/m2r whose Go Simulate are stubs and it hangs on the unchanged tree (C12); not run here",
-                       "shared-object opcodes and dynamic opcode families are outside BMV.Arch.layout: such machines get the verdict 'unmodelled'"] + notes,
+                       "melbond: pkg/melbond does not compile on the unchanged tree; not run",
+                       "bondgo's single-processor output (-save-machine) is a processor, not a BondMachine: not an instance of this property",
+                       "dynamic opcode families (rsetsN, …) are outside BMV.Arch.layout: such machines get the verdict 'unmodelled'"] + notes,
     })
     # ---- outcome ----
     bad = [(i, judge(i)) for i in insts if judge(i)]
@@ -268,7 +435,7 @@ def replay(rep, path):
     vlib.lake_build([EXE])
     obj = json.load(open(path))
     src = obj.get("source")
-    if not src:
+    if not src or not str(obj.get("front_end", "gen:")).startswith(("gen:", "text")):
         rep.coverage.update({"evaluations": 1, "distinct_nontrivial": 1, "rule": "replay of " + path + " (no source text stored: front-end instance, re-run the check)",
                              "samples": [obj.get("input")]})
         return
